@@ -175,9 +175,9 @@ const _: () = {
                     type Error = ErrorMessage;
 
                     fn from_param(param: Cow<'p, str>) -> Result<Self, Self::Error> {
-                        ::byte_reader::Reader::new(param.as_bytes())
-                            .read_uint()
-                            .map(|i| Self::try_from(i).ok())
+                        // the whole param must be the integer, and be in range
+                        (!param.starts_with('+'))
+                            .then(|| param.parse::<Self>().ok())
                             .flatten()
                             .ok_or_else(|| ErrorMessage(format!("Unexpected path param")))
                     }
@@ -198,9 +198,9 @@ const _: () = {
                     type Error = ErrorMessage;
 
                     fn from_param(param: Cow<'p, str>) -> Result<Self, Self::Error> {
-                        ::byte_reader::Reader::new(param.as_bytes())
-                            .read_int()
-                            .map(|i| Self::try_from(i).ok())
+                        // the whole param must be the integer, and be in range
+                        (!param.starts_with('+'))
+                            .then(|| param.parse::<Self>().ok())
                             .flatten()
                             .ok_or_else(|| ErrorMessage(format!("Unexpected path param")))
                     }
